@@ -79,6 +79,10 @@ def run_shards(prop, specs, timeout, jobs=NCPU):
     return res
 
 
+def _size(w):
+    return len(json.dumps(w['case'], default=repr))
+
+
 def write_replay(prop, witness):
     d = REPLAY_DIR / prop
     d.mkdir(parents=True, exist_ok=True)
@@ -116,7 +120,10 @@ def check(prop, tier, seed, shard_filter=None):
         if e is not None:
             known.setdefault(e['id'], (e, w))
         else:
-            unknown.setdefault(stable_hash(w['sig']), w)
+            # keep the smallest witness per mechanism signature
+            h = stable_hash(w['sig'])
+            if h not in unknown or _size(w) < _size(unknown[h]):
+                unknown[h] = w
     for fid, (e, w) in sorted(known.items()):
         print(f'KNOWN-FINDING: property={prop} {fid}: {e["what"]}')
     printed = 0
